@@ -567,6 +567,8 @@ class Eval:
             return from_lanes([('select', mm if is_mask(mm) else ('signbit', mm), y, x) for mm, x, y in zip(lm, la, lb)], 4)
         if n in ('_mm256_testz_si256', '_mm_testz_si128'):
             return ('testz', vec(0), vec(1))
+        if n in ('_mm256_movemask_epi8', '_mm_movemask_epi8'):
+            return ('movemask', vec(0))
         raise Unsupported(f'intrinsic without a transfer function: {n}')
 
     # ---- calls
